@@ -293,6 +293,8 @@ def _shifted(model, t):
     m["c"] = model["c"] + np.array(t, dtype=float)
     # exact centre for the oracle (long double keeps 1e3 + 10 etc. exact)
     m["c_ld"] = np.asarray(model["c"], dtype=LD) + np.asarray(t, dtype=LD)
+    m["c_fr"] = [Fraction(float(a)) + Fraction(float(b))
+                 for a, b in zip(model["c"], t)]
     return m
 
 
@@ -309,7 +311,8 @@ def _margins(model, pts):
         return np.array([((P / np.asarray(ax, dtype=LD)) ** 2).sum(-1) - 1
                          for ax in model["surf"]], dtype=LD)
     out = np.empty((len(model["surf"]), len(pts)))
-    cf = [Fraction(float(x)) for x in np.asarray(model["c"], dtype=float)]
+    cf = model.get("c_fr") or [Fraction(float(x)) for x in
+                               np.asarray(model["c"], dtype=float)]
     for i, ax in enumerate(model["surf"]):
         af = [Fraction(a) for a in ax]
         for j, p in enumerate(pts):
@@ -588,7 +591,11 @@ def _csg_compare(ck, u, op, m1, m2, pts, tag, prefix, name=None):
             "first %r (analytic %s)" %
             (tag, bad.sum(), dec.sum(), _first_bad(bad, pts),
              ins_e[int(np.argmax(bad))]))
+    nviol = len(ck.viol)
     bad = dec & ((dom != 0) != ins_e)
+    if name and nviol and ck.viol[-1]["check"] == name and \
+            np.array_equal(dom != 0, con != 0):
+        return con != 0, ins_e, dec          # same finding, already reported
     ck.true(name or (prefix + "in-domain"), not bad.any(),
             "%s: in_domain() differs from the analytic set at %d points, "
             "first %r" % (tag, bad.sum(), _first_bad(bad, pts)))
@@ -648,19 +655,26 @@ def _run_csgtr(case, ck):
         new = _translate(u, t, form)
         ck.trans += 1
         q = pts + np.array(t)
-        con, ins_e, dec = _csg_compare(
-            ck, new, op, _shifted(m1, t), _shifted(m2, t), q,
-            "%s(%s,%s).translated(%r)" % (op, a, b, t), "translate-",
-            name="translate-containment")
+        mt1, mt2 = _shifted(m1, t), _shifted(m2, t)
+        ins_e, dec = _csg_oracle(op, mt1, mt2, q)
         _, dec0 = _csg_oracle(op, m1, m2, pts)
-        if con is not None:
-            bad = dec & dec0 & (con != (before != 0))
-            ck.true("translate-containment", not bad.any(),
-                    "%s(%s,%s).translated(%r).contains(p+t) != contains(p) "
-                    "at %d of %d points, first p=%r" %
-                    (op, a, b, t, bad.sum(), (dec & dec0).sum(),
-                     _first_bad(bad, pts)))
-            acc.append(con.astype(np.int8))
+        con = np.asarray(new.contains(q)) != 0
+        ck.trans += 1
+        bad = dec & dec0 & (con != (before != 0))
+        same = ck.true(
+            "translate-containment", not bad.any(),
+            "%s(%s,%s).translated(%r).contains(p+t) != contains(p) at %d of "
+            "%d decided points, first p=%r (p in the set: %s, p+t in the "
+            "translated set: %s)" %
+            (op, a, b, t, bad.sum(), (dec & dec0).sum(),
+             _first_bad(bad, pts), bool(before[int(np.argmax(bad))]),
+             bool(con[int(np.argmax(bad))])))
+        if same:
+            # also against the analytic region around the shifted centres
+            _csg_compare(ck, new, op, mt1, mt2, q,
+                         "%s(%s,%s).translated(%r)" % (op, a, b, t),
+                         "translate-", name="translate-containment")
+        acc.append(con.astype(np.int8))
         bnd = _check_bounds(ck, new, q, dec & ins_e,
                             "%s(%s,%s).translated(%r)" % (op, a, b, t),
                             "translate-bounds")
@@ -668,6 +682,8 @@ def _run_csgtr(case, ck):
         after = np.asarray(u.contains(pts))
         ck.true("translate-purity", np.array_equal(before, after),
                 "%s: translated() changed the original's containment" % tag)
+        if ck.viol:
+            break               # the second call form would repeat the report
     return digest(*acc), "ok"
 
 
